@@ -9,19 +9,19 @@ import (
 
 func init() {
 	register(&Rule{
-		Name: "TYPESWITCHAGREE",
-		Doc: "sibling type switches that box unhashable Go values used as map keys (every type switch whose cases include both map[string]interface{} and []interface{}) list the same set of unhashable types: a kind that one decoder can produce (e.g. map[thrift.FieldID]interface{} under MapStructById) and a sibling forgets falls into `default: ret[kv] = …` and panics with `hash of unhashable type`",
+		Name:     "TYPESWITCHAGREE",
+		Doc:      "sibling type switches that box unhashable Go values used as map keys (every type switch whose cases include both map[string]interface{} and []interface{}) list the same set of unhashable types: a kind that one decoder can produce (e.g. map[thrift.FieldID]interface{} under MapStructById) and a sibling forgets falls into `default: ret[kv] = …` and panics with `hash of unhashable type`",
 		Configs:  "NP",
 		Floor:    map[string]int{"N": 2, "P": 2},
 		Controls: 1,
 		Run:      runTypeSwitchAgree,
 	})
 	register(&Rule{
-		Name: "SIBLINGOPTS",
-		Doc: "the bulk getters of one family read the same option: every Fields / Indexes / Gets method of thrift/generic.Node and proto/generic.Node (siblings that fill a caller-supplied []PathNode) loads Options.ClearDirtyValues — a sibling that stops honouring it leaves stale nodes from the previous query in slots whose element is now absent",
-		Configs:  "NP",
-		Floor:    map[string]int{"N": 6, "P": 6},
-		Run:      runSiblingOpts,
+		Name:    "SIBLINGOPTS",
+		Doc:     "the bulk getters of one family read the same option: every Fields / Indexes / Gets method of thrift/generic.Node and proto/generic.Node (siblings that fill a caller-supplied []PathNode) loads Options.ClearDirtyValues — a sibling that stops honouring it leaves stale nodes from the previous query in slots whose element is now absent",
+		Configs: "NP",
+		Floor:   map[string]int{"N": 6, "P": 6},
+		Run:     runSiblingOpts,
 	})
 }
 
